@@ -248,7 +248,7 @@ Proof.
   destruct (Bool.eqb (enabled c0) p) eqn:Ee; simpl in H; [|discriminate].
   apply Bool.eqb_prop in Ee.
   destruct (build dc bad c0) as [ob|]; [|discriminate].
-  destruct (match mget (host c0) m with Some (_, c2, ob2) => negb (compat c0 c2 ob ob2) | None => false end);
+  destruct (match mget (key_of (host c0)) m with Some (_, c2, ob2) => negb (compat c0 c2 ob ob2) | None => false end);
     [discriminate|].
   destruct Hin as [Heq|Hin].
   - injection Heq as <-. exact Ee.
@@ -286,7 +286,7 @@ Proof.
   - destruct prev as [p|].
     + destruct (Bool.eqb (enabled c0) p) eqn:Ee; simpl in H.
       * destruct (build dc bad c0) as [ob|]; [|discriminate].
-        destruct (match mget (host c0) m with Some (_, c2, ob2) => negb (compat c0 c2 ob ob2) | None => false end);
+        destruct (match mget (key_of (host c0)) m with Some (_, c2, ob2) => negb (compat c0 c2 ob ob2) | None => false end);
           [discriminate|].
         destruct (IH _ _ _ H) as [c [Hin [q [Hq Hne]]]].
         exists c. split; [right; exact Hin|]. exists q. split; [|exact Hne].
@@ -297,7 +297,7 @@ Proof.
       * exists c0. split; [left; reflexivity|]. exists p. split; [left; reflexivity|].
         intro Heq. rewrite Heq in Ee. destruct p; discriminate.
     + destruct (build dc bad c0) as [ob|]; [|discriminate]. simpl in H.
-      destruct (match mget (host c0) m with Some (_, c2, ob2) => negb (compat c0 c2 ob ob2) | None => false end);
+      destruct (match mget (key_of (host c0)) m with Some (_, c2, ob2) => negb (compat c0 c2 ob ob2) | None => false end);
         [discriminate|].
       destruct (IH _ _ _ H) as [c [Hin [q [Hq Hne]]]].
       exists c. split; [right; exact Hin|]. exists q. split; [|exact Hne].
@@ -353,7 +353,7 @@ Proof.
     destruct o as [c0|]; simpl in H.
     + destruct (match prev with Some p => negb (Bool.eqb (enabled c0) p) | None => false end); [discriminate|].
       destruct (build dc bad c0) as [ob|] eqn:Eb; [|discriminate].
-      destruct (match mget (host c0) m with Some (_, c2, ob2) => negb (compat c0 c2 ob ob2) | None => false end);
+      destruct (match mget (key_of (host c0)) m with Some (_, c2, ob2) => negb (compat c0 c2 ob ob2) | None => false end);
         [discriminate|].
       rewrite <- Hlen in H. eapply IH; [exact Hall'| |exact H].
       intros k i c ob' Hg. rewrite mget_mset in Hg.
@@ -418,15 +418,8 @@ Proof.
     + left. eapply Hd. exact Hin.
 Qed.
 
-(* sites that share a proper host name (not "", 0.0.0.0, ::) all get settings equal to their own *)
-Definition proper (h : bytes) : Prop := h <> [] /\ key_of h = h.
-
-Lemma key_of_proper h x : proper h -> key_of x = h -> x = h.
-Proof.
-  intros [Hne Hk] H. unfold key_of in H.
-  destruct (beq x (bs "0.0.0.0"%string) || beq x (bs "::"%string)); [congruence|exact H].
-Qed.
-
+(* sites that share a key (a host name, or one of the catch-all spellings "", 0.0.0.0, ::) all
+   get settings equal to their own: the compatibility assert is applied under the stored key *)
 Lemma compat_same c1 c2 ob1 ob2 : compat c1 c2 ob1 ob2 = true -> ob1 = ob2.
 Proof.
   unfold compat. destruct ob1 as [x|], ob2 as [y|]; try discriminate; [|reflexivity].
@@ -434,8 +427,8 @@ Proof.
 Qed.
 
 Definition own_ok dc bad (done : list (option tcfg)) (m : amap gval) : Prop :=
-  forall c, In (Some c) done -> proper (host c) ->
-    exists i c' ob, mget (host c) m = Some (i, c', ob) /\ build dc bad c = Some ob.
+  forall c, In (Some c) done ->
+    exists i c' ob, mget (key_of (host c)) m = Some (i, c', ob) /\ build dc bad c = Some ob.
 
 Lemma mk_loop_own dc bad done cs prev m m' :
   own_ok dc bad done m ->
@@ -449,39 +442,39 @@ Proof.
     destruct o as [c0|]; simpl in H.
     + destruct (match prev with Some p => negb (Bool.eqb (enabled c0) p) | None => false end); [discriminate|].
       destruct (build dc bad c0) as [ob|] eqn:Eb; [|discriminate].
-      destruct (mget (host c0) m) as [[[i2 c2] ob2]|] eqn:Eg.
+      destruct (mget (key_of (host c0)) m) as [[[i2 c2] ob2]|] eqn:Eg.
       * destruct (compat c0 c2 ob ob2) eqn:Ec; simpl in H; [|discriminate].
         rewrite <- Hlen in H. eapply IH; [|exact H].
-        intros c Hin Hp. rewrite mget_mset.
-        destruct (beq (key_of (host c0)) (host c)) eqn:Ek.
-        -- apply beq_eq in Ek. apply (key_of_proper _ _ Hp) in Ek.
+        intros c Hin. rewrite mget_mset.
+        destruct (beq (key_of (host c0)) (key_of (host c))) eqn:Ek.
+        -- apply beq_eq in Ek.
            apply in_app_or in Hin. destruct Hin as [Hin|[Heq|[]]].
-           ++ destruct (Hinv c Hin Hp) as [i [c' [ob' [Hg Hb]]]].
+           ++ destruct (Hinv c Hin) as [i [c' [ob' [Hg Hb]]]].
               rewrite <- Ek in Hg. rewrite Eg in Hg. injection Hg as <- <- <-.
               apply compat_same in Ec. subst ob2. eauto.
            ++ injection Heq as <-. eauto.
         -- apply in_app_or in Hin. destruct Hin as [Hin|[Heq|[]]].
            ++ apply Hinv; assumption.
-           ++ injection Heq as <-. destruct Hp as [_ Hk]. rewrite Hk in Ek. rewrite beq_refl in Ek. discriminate.
+           ++ injection Heq as <-. rewrite beq_refl in Ek. discriminate.
       * simpl in H. rewrite <- Hlen in H. eapply IH; [|exact H].
-        intros c Hin Hp. rewrite mget_mset.
-        destruct (beq (key_of (host c0)) (host c)) eqn:Ek.
-        -- apply beq_eq in Ek. apply (key_of_proper _ _ Hp) in Ek.
+        intros c Hin. rewrite mget_mset.
+        destruct (beq (key_of (host c0)) (key_of (host c))) eqn:Ek.
+        -- apply beq_eq in Ek.
            apply in_app_or in Hin. destruct Hin as [Hin|[Heq|[]]].
-           ++ destruct (Hinv c Hin Hp) as [i [c' [ob' [Hg Hb]]]].
+           ++ destruct (Hinv c Hin) as [i [c' [ob' [Hg Hb]]]].
               rewrite <- Ek in Hg. rewrite Eg in Hg. discriminate.
            ++ injection Heq as <-. eauto.
         -- apply in_app_or in Hin. destruct Hin as [Hin|[Heq|[]]].
            ++ apply Hinv; assumption.
-           ++ injection Heq as <-. destruct Hp as [_ Hk]. rewrite Hk in Ek. rewrite beq_refl in Ek. discriminate.
+           ++ injection Heq as <-. rewrite beq_refl in Ek. discriminate.
     + rewrite <- Hlen in H. eapply IH; [|exact H].
-      intros c Hin Hp. apply in_app_or in Hin. destruct Hin as [Hin|[Heq|[]]]; [|discriminate].
+      intros c Hin. apply in_app_or in Hin. destruct Hin as [Hin|[Heq|[]]]; [|discriminate].
       apply Hinv; assumption.
 Qed.
 
 Lemma group_own_settings dc bad cs g c :
-  make_tls_config dc bad cs = MkGroup g -> In (Some c) cs -> proper (host c) ->
-  exists i c' ob, mget (host c) g = Some (i, c', ob) /\ build dc bad c = Some ob.
+  make_tls_config dc bad cs = MkGroup g -> In (Some c) cs ->
+  exists i c' ob, mget (key_of (host c)) g = Some (i, c', ob) /\ build dc bad c = Some ob.
 Proof.
   unfold make_tls_config. destruct cs as [|o cs]; [discriminate|].
   destruct (mk_loop dc bad 0 None (o :: cs) []) as [e|m'] eqn:E; [discriminate|].
@@ -636,7 +629,7 @@ Proof.
   - destruct o as [c0|].
     + destruct (match prev with Some p => negb (Bool.eqb (enabled c0) p) | None => false end); [discriminate|].
       destruct (build dc bad c0) as [ob|]; [|discriminate].
-      destruct (match mget (host c0) m with Some (_, c2, ob2) => negb (compat c0 c2 ob ob2) | None => false end);
+      destruct (match mget (key_of (host c0)) m with Some (_, c2, ob2) => negb (compat c0 c2 ob ob2) | None => false end);
         [discriminate|].
       rewrite (IH _ _ _ _ k H). rewrite mget_mset. split.
       * intros [H1 H2]. destruct (beq (key_of (host c0)) k) eqn:E; [discriminate|].
@@ -648,72 +641,6 @@ Proof.
     + rewrite (IH _ _ _ _ k H). split.
       * intros [H1 H2]. split; [exact H1|]. intros c [Heq|Hin]; [discriminate|apply H2; exact Hin].
       * intros [H1 H2]. split; [exact H1|]. intros c Hin. apply H2. right. exact Hin.
-Qed.
-
-(* own settings when no config uses an unspecified-address spelling *)
-Definition plain_keys (cs : list (option tcfg)) : Prop :=
-  forall c, In (Some c) cs -> key_of (host c) = host c.
-
-Definition own_ok' dc bad (done : list (option tcfg)) (m : amap gval) : Prop :=
-  forall c, In (Some c) done ->
-    exists i c' ob, mget (host c) m = Some (i, c', ob) /\ build dc bad c = Some ob.
-
-Lemma mk_loop_own' dc bad done cs prev m m' :
-  plain_keys (done ++ cs) ->
-  own_ok' dc bad done m ->
-  mk_loop dc bad (length done) prev cs m = inr m' ->
-  own_ok' dc bad (done ++ cs) m'.
-Proof.
-  revert done prev m; induction cs as [|o cs IH]; intros done prev m Hpk Hinv H.
-  - simpl in H. injection H as <-. rewrite app_nil_r. exact Hinv.
-  - assert (Hlen : length (done ++ [o]) = S (length done)) by (rewrite app_length; simpl; lia).
-    assert (Heq : done ++ o :: cs = (done ++ [o]) ++ cs) by (rewrite <- app_assoc; reflexivity).
-    rewrite Heq. rewrite Heq in Hpk.
-    destruct o as [c0|]; simpl in H.
-    + assert (Hk0 : key_of (host c0) = host c0).
-      { apply Hpk. apply in_or_app. left. apply in_or_app. right. left. reflexivity. }
-      rewrite Hk0 in H.
-      destruct (match prev with Some p => negb (Bool.eqb (enabled c0) p) | None => false end); [discriminate|].
-      destruct (build dc bad c0) as [ob|] eqn:Eb; [|discriminate].
-      destruct (mget (host c0) m) as [[[i2 c2] ob2]|] eqn:Eg.
-      * destruct (compat c0 c2 ob ob2) eqn:Ec; simpl in H; [|discriminate].
-        rewrite <- Hlen in H. eapply IH; [exact Hpk| |exact H].
-        intros c Hin. rewrite mget_mset.
-        destruct (beq (host c0) (host c)) eqn:Ek.
-        -- apply beq_eq in Ek.
-           apply in_app_or in Hin. destruct Hin as [Hin|[Hc|[]]].
-           ++ destruct (Hinv c Hin) as [i [c' [ob' [Hg Hb]]]].
-              rewrite <- Ek in Hg. rewrite Eg in Hg. injection Hg as <- <- <-.
-              apply compat_same in Ec. subst ob2. eauto.
-           ++ injection Hc as <-. eauto.
-        -- apply in_app_or in Hin. destruct Hin as [Hin|[Hc|[]]].
-           ++ apply Hinv; assumption.
-           ++ injection Hc as <-. rewrite beq_refl in Ek. discriminate.
-      * simpl in H. rewrite <- Hlen in H. eapply IH; [exact Hpk| |exact H].
-        intros c Hin. rewrite mget_mset.
-        destruct (beq (host c0) (host c)) eqn:Ek.
-        -- apply beq_eq in Ek.
-           apply in_app_or in Hin. destruct Hin as [Hin|[Hc|[]]].
-           ++ destruct (Hinv c Hin) as [i [c' [ob' [Hg Hb]]]].
-              rewrite <- Ek in Hg. rewrite Eg in Hg. discriminate.
-           ++ injection Hc as <-. eauto.
-        -- apply in_app_or in Hin. destruct Hin as [Hin|[Hc|[]]].
-           ++ apply Hinv; assumption.
-           ++ injection Hc as <-. rewrite beq_refl in Ek. discriminate.
-    + rewrite <- Hlen in H. eapply IH; [exact Hpk| |exact H].
-      intros c Hin. apply in_app_or in Hin. destruct Hin as [Hin|[Hc|[]]]; [|discriminate].
-      apply Hinv; assumption.
-Qed.
-
-Lemma group_own_settings' dc bad cs g c :
-  plain_keys cs -> make_tls_config dc bad cs = MkGroup g -> In (Some c) cs ->
-  exists i c' ob, mget (host c) g = Some (i, c', ob) /\ build dc bad c = Some ob.
-Proof.
-  intro Hpk. unfold make_tls_config. destruct cs as [|o cs]; [discriminate|].
-  destruct (mk_loop dc bad 0 None (o :: cs) []) as [e|m'] eqn:E; [discriminate|].
-  destruct (first_enabled (o :: cs)); [|discriminate]. intro H. injection H as <-.
-  apply (mk_loop_own' dc bad [] (o :: cs) None [] m'); [exact Hpk| |exact E].
-  intros c0 [].
 Qed.
 
 Lemma group_domain dc bad cs g k :
@@ -738,17 +665,44 @@ Proof.
   - intro H. destruct (IH H) as [h' [Hin Hm]]. exists h'. split; [right; exact Hin|exact Hm].
 Qed.
 
+(* wildcard candidates begin with a star: they are neither empty nor an unspecified address *)
+Lemma join_star_head l : exists t, join [DOT] ([STAR] :: l) = STAR :: t.
+Proof. destruct l; simpl; eexists; reflexivity. Qed.
+
+Lemma wild_cands_star name c : In c (wild_cands name) -> exists t, c = STAR :: t.
+Proof.
+  rewrite wild_cands_closed. intro H. apply in_map_iff in H. destruct H as [k [<- Hk]].
+  apply in_seq in Hk. unfold cand. destruct k as [|k]; [lia|]. simpl. apply join_star_head.
+Qed.
+
+Lemma key_of_cases x :
+  (key_of x = [] /\ (x = bs "0.0.0.0"%string \/ x = bs "::"%string)) \/
+  (key_of x = x /\ x <> bs "0.0.0.0"%string /\ x <> bs "::"%string).
+Proof.
+  unfold key_of. destruct (beq x (bs "0.0.0.0"%string)) eqn:E1; destruct (beq x (bs "::"%string)) eqn:E2;
+    cbn [orb].
+  - left. split; [reflexivity|]. left. apply beq_eq. exact E1.
+  - left. split; [reflexivity|]. left. apply beq_eq. exact E1.
+  - left. split; [reflexivity|]. right. apply beq_eq. exact E2.
+  - right. split; [reflexivity|]. split; apply beq_false_neq; assumption.
+Qed.
+
+Lemma find_key_at {V} (m : amap V) pre k v rest :
+  (forall c, In c pre -> mget c m = None) -> mget k m = Some v ->
+  find_key m (pre ++ k :: rest) = Some (k, v).
+Proof.
+  intros Hp Hk. rewrite find_key_app_none; [|exact Hp]. simpl. rewrite Hk. reflexivity.
+Qed.
+
 Theorem clientauth_policy_governs dc bad sites g dflt conn sni rhost v s :
   make_tls_config dc bad (map (fun s => Some (s_tls s)) sites) = MkGroup g ->
-  (forall s, In s sites -> vhost_key (s_addr s) = host (s_tls s) /\ key_of (host (s_tls s)) = host (s_tls s)) ->
-  match_host (vhosts sites) (bs "0.0.0.0"%string) = None ->
-  match_host (vhosts sites) (bs "::"%string) = None ->
-  mget (bs "*"%string) (vhosts sites) = None ->
+  (forall s, In s sites -> vhost_key (s_addr s) = host (s_tls s)) ->
+  (forall c, In c fallback_star_names -> mget c (vhosts sites) = None) ->
   serve sites (Some sni) rhost = Served v -> nth_error sites v = Some s -> demands (s_tls s) = true ->
   trim_space sni = sni -> sni <> [] ->
   exists k i c ob, get_config g dflt conn sni = Found k (i, c, ob) /\ build dc bad (s_tls s) = Some ob.
 Proof.
-  intros Hmk Hsites Hf1 Hf2 Hstar Hserve Hnth Hdem Htrim Hne.
+  intros Hmk Hsites Hstar Hserve Hnth Hdem Htrim Hne.
   pose proof (strict_sni_host _ _ _ _ _ Hserve Hnth Hdem) as Hsni.
   set (h := to_lower sni).
   assert (Hname : effective_name dflt sni = h).
@@ -762,41 +716,85 @@ Proof.
   destruct (nth_error sites j) as [s'|] eqn:Ej; [|discriminate].
   destruct (strict_fail (s_tls s') (Some sni) h); [discriminate|].
   injection Hserve as ->. rewrite Hnth in Ej. injection Ej as <-.
-  (* kk is the first present key among h :: wild_cands h ++ [""] *)
-  assert (Hfk : find_key (vhosts sites) (h :: wild_cands h ++ [[]]) = Some (kk, v)).
-  { unfold vmatch, fallback_hosts in Ev. cbn [first_match] in Ev.
-    change (h :: wild_cands h ++ [[]]) with ((h :: wild_cands h) ++ [[]]).
-    destruct (match_host (vhosts sites) h) as [x|] eqn:E0.
-    - injection Ev as ->. apply find_key_app_some. exact E0.
-    - rewrite Hf1, Hf2 in Ev.
-      rewrite find_key_app_none; [|apply find_key_none; exact E0].
-      destruct (match_host (vhosts sites) []) as [x|] eqn:E3; [|discriminate]. injection Ev as ->.
-      unfold match_host in E3. change (wild_cands []) with [bs "*"%string] in E3.
-      cbn [find_key] in E3. cbn [find_key]. destruct (mget [] (vhosts sites)) as [w|]; [exact E3|].
-      rewrite Hstar in E3. discriminate. }
-  (* same domain *)
+  set (e := vhosts sites) in *.
   set (cfgs := map (fun s => Some (s_tls s)) sites) in *.
-  assert (Hdom : forall k, mget k (vhosts sites) = None <-> mget k g = None).
-  { intro k. unfold vhosts. rewrite vinsert_none. rewrite (group_domain _ _ _ _ k Hmk). split.
-    - intros [_ H] c Hin. unfold cfgs in Hin. apply in_map_iff in Hin. destruct Hin as [s0 [Hs0 Hin]].
-      injection Hs0 as <-. destruct (Hsites _ Hin) as [H1 H2]. rewrite H2, <- H1. apply H. exact Hin.
-    - intro H. split; [reflexivity|]. intros s0 Hin. destruct (Hsites _ Hin) as [H1 H2].
-      rewrite H1, <- H2. apply H. unfold cfgs. apply in_map_iff. exists s0. split; [reflexivity|exact Hin]. }
-  destruct (find_key_same_domain (vhosts sites) g _ kk v (fun c _ => Hdom c) Hfk) as [[[i c] ob] Hg].
-  exists kk, i, c, ob. split.
-  - unfold get_config. rewrite Hname.
-    destruct (is_nil h) eqn:E; [destruct h; [congruence|discriminate]|]. rewrite Hg. reflexivity.
-  - (* the entry under kk holds settings equal to the routed site's own *)
-    destruct (find_key_some _ _ _ _ Hfk) as [Hgv _].
-    unfold vhosts in Hgv. apply vinsert_get in Hgv. destruct Hgv as [[s0 [Hn0 [_ Hk0]]]|Hgv]; [|discriminate].
+  assert (Hin : In s sites) by (eapply nth_error_In; exact Hnth).
+  (* a key of the vhost table that holds v is the host name of s *)
+  assert (Hkey : forall k, mget k e = Some v -> k = host (s_tls s)).
+  { intros k Hg. unfold e, vhosts in Hg. apply vinsert_get in Hg.
+    destruct Hg as [[s0 [Hn0 [_ Hk0]]]|Hg]; [|discriminate].
     rewrite Nat.sub_0_r in Hn0. rewrite Hnth in Hn0. injection Hn0 as <-.
-    assert (Hin : In s sites) by (eapply nth_error_In; exact Hnth).
-    destruct (Hsites _ Hin) as [H1 H2]. rewrite H1 in Hk0.
-    assert (Hpk : plain_keys cfgs).
-    { intros c0 Hc0. unfold cfgs in Hc0. apply in_map_iff in Hc0. destruct Hc0 as [s0 [Hs0 Hin0]].
-      injection Hs0 as <-. apply (Hsites _ Hin0). }
-    destruct (group_own_settings' dc bad cfgs g (s_tls s) Hpk Hmk) as [i' [c' [ob' [Hg' Hb']]]].
-    { unfold cfgs. apply in_map_iff. exists s. split; [reflexivity|exact Hin]. }
-    rewrite Hk0 in Hg'. destruct (find_key_some _ _ _ _ Hg) as [Hgg _]. rewrite Hgg in Hg'.
-    injection Hg' as <- <- <-. exact Hb'.
+    rewrite <- Hk0. apply Hsites. exact Hin. }
+  (* a non-empty name absent from the vhost table is absent from the TLS group *)
+  assert (Hdom : forall c, c <> [] -> mget c e = None -> mget c g = None).
+  { intros c Hc He. apply (group_domain _ _ _ _ c Hmk). intros cf Hcf Hk.
+    unfold cfgs in Hcf. apply in_map_iff in Hcf. destruct Hcf as [s0 [Hs0 Hin0]]. injection Hs0 as <-.
+    unfold e, vhosts in He. apply vinsert_none in He. destruct He as [_ He].
+    destruct (key_of_cases (host (s_tls s0))) as [[Hk0 _]|[Hk0 _]]; [congruence|].
+    apply (He s0 Hin0). rewrite (Hsites _ Hin0). congruence. }
+  (* the unspecified addresses are never keys of the TLS group *)
+  assert (Hunspec : forall c, c = bs "0.0.0.0"%string \/ c = bs "::"%string -> mget c g = None).
+  { intros c Hc. apply (group_domain _ _ _ _ c Hmk). intros cf _ Hk.
+    destruct (key_of_cases (host cf)) as [[Hk0 _]|[Hk0 [N1 N2]]].
+    - rewrite Hk0 in Hk. destruct Hc as [-> | ->]; discriminate.
+    - rewrite Hk0 in Hk. destruct Hc as [-> | ->]; congruence. }
+  assert (Hcne : forall c, In c (h :: wild_cands h) -> c <> []).
+  { intros c [<-|Hc]; [exact Hhne|]. destruct (wild_cands_star _ _ Hc) as [t ->]. discriminate. }
+  (* the group holds settings equal to s's own under the key of s *)
+  destruct (group_own_settings dc bad cfgs g (s_tls s) Hmk) as [i' [c' [ob' [Hg' Hb']]]].
+  { unfold cfgs. apply in_map_iff. exists s. split; [reflexivity|exact Hin]. }
+  (* when nothing more specific is in the group and s is a catch-all site, "" governs *)
+  assert (Hcatch : (forall c, In c (h :: wild_cands h) -> mget c g = None) -> key_of kk = [] ->
+                   mget kk e = Some v ->
+                   exists k i c ob, get_config g dflt conn sni = Found k (i, c, ob) /\
+                                    build dc bad (s_tls s) = Some ob).
+  { intros Hnone Hk0 Hgv. rewrite <- (Hkey _ Hgv), Hk0 in Hg'.
+    exists [], i', c', ob'. split; [|exact Hb'].
+    unfold get_config. rewrite Hname.
+    destruct (is_nil h) eqn:E; [destruct h; [congruence|discriminate]|].
+    change (h :: wild_cands h ++ [[]]) with ((h :: wild_cands h) ++ [[]]).
+    replace (find_key g ((h :: wild_cands h) ++ [[]])) with (Some (@nil N, (i', c', ob')));
+      [reflexivity|symmetry; apply find_key_at; assumption]. }
+  unfold vmatch in Ev. cbn [first_match] in Ev.
+  destruct (match_host e h) as [x|] eqn:E0.
+  - (* matched by the request's own name *)
+    injection Ev as ->. unfold match_host in E0.
+    destruct (find_key_some _ _ _ _ E0) as [Hgv [pre [post [Hc Hp]]]].
+    assert (Hkin : In kk (h :: wild_cands h)) by (rewrite Hc; apply in_or_app; right; left; reflexivity).
+    destruct (key_of_cases kk) as [[Hk0 Hun]|[Hk0 [N1 N2]]].
+    + (* the request names an unspecified address that is a site *)
+      assert (Hkh : kk = h).
+      { destruct Hkin as [->|Hw]; [reflexivity|]. destruct (wild_cands_star _ _ Hw) as [t ->].
+        destruct Hun as [Hun|Hun]; discriminate. }
+      apply Hcatch; [|exact Hk0|exact Hgv].
+      intros c [<-|Hw]; [apply Hunspec; rewrite <- Hkh; exact Hun|].
+      apply Hdom; [apply Hcne; right; exact Hw|]. apply Hstar.
+      unfold fallback_star_names, fallback_hosts. apply in_flat_map. exists h. split; [|exact Hw].
+      rewrite <- Hkh. destruct Hun as [-> | ->]; [left; reflexivity|right; left; reflexivity].
+    + rewrite <- (Hkey _ Hgv), Hk0 in Hg'.
+      exists kk, i', c', ob'. split; [|exact Hb'].
+      unfold get_config. rewrite Hname.
+      destruct (is_nil h) eqn:E; [destruct h; [congruence|discriminate]|].
+      change (h :: wild_cands h ++ [[]]) with ((h :: wild_cands h) ++ [[]]).
+      rewrite Hc. rewrite <- app_assoc. simpl.
+      replace (find_key g (pre ++ kk :: post ++ [[]])) with (Some (kk, (i', c', ob')));
+        [reflexivity|symmetry; apply find_key_at; [|exact Hg']].
+      intros c Hcp. apply Hdom; [|apply Hp; exact Hcp].
+      apply Hcne. rewrite Hc. apply in_or_app. left. exact Hcp.
+  - (* matched through a fallback host: only the host itself can be a site *)
+    assert (Hnone : forall c, In c (h :: wild_cands h) -> mget c g = None).
+    { intros c Hcin. apply Hdom; [apply Hcne; exact Hcin|]. eapply find_key_none; [exact E0|exact Hcin]. }
+    assert (Hfb : exists h', In h' fallback_hosts /\ match_host e h' = Some (kk, v)).
+    { apply first_match_cases. unfold fallback_hosts. cbn [first_match]. exact Ev. }
+    destruct Hfb as [h' [Hh' Hm]]. unfold match_host in Hm.
+    destruct (find_key_some _ _ _ _ Hm) as [Hgv [pre [post [Hc Hp]]]].
+    assert (Hkin : In kk (h' :: wild_cands h')) by (rewrite Hc; apply in_or_app; right; left; reflexivity).
+    assert (Hkh : kk = h').
+    { destruct Hkin as [->|Hw]; [reflexivity|]. exfalso.
+      assert (Hs : mget kk e = None).
+      { apply Hstar. unfold fallback_star_names. apply in_flat_map. exists h'. split; assumption. }
+      rewrite Hs in Hgv. discriminate. }
+    apply Hcatch; [exact Hnone| |exact Hgv].
+    rewrite Hkh. unfold fallback_hosts in Hh'.
+    destruct Hh' as [<-|[<-|[<-|[]]]]; vm_compute; reflexivity.
 Qed.
